@@ -19,6 +19,7 @@ package compose
 import (
 	"container/list"
 	"context"
+	"errors"
 	"fmt"
 	"runtime/debug"
 	"sync"
@@ -282,6 +283,9 @@ type task struct {
 	option         []any
 	err            error
 	skipPreHandler bool
+	// errNamed: err already carries the path of the node where it arose (an error item of another node's
+	// output stream that this node read at call time); the run loop must not add this node's key to it
+	errNamed bool
 	verifTask
 }
 
@@ -375,6 +379,22 @@ func (t *taskManager) waitOne() (*task, bool) {
 	verifPoint(7, t, ta)
 
 	if ta.err != nil {
+		// a node that reads its input stream at call time (an invoke-only or collect-only node in the stream
+		// paradigms) fails with the error item of the node that produced the stream: the failure keeps the
+		// path that item was given, whatever this node wrapped around it
+		for e := ta.err; e != nil; e = errors.Unwrap(e) {
+			if ie, ok := e.(*internalError); ok && ie.streamOrigin == t {
+				ta.err = &internalError{
+					typ:               ie.typ,
+					streamWrapperPath: append([]defaultImplAction(nil), ie.streamWrapperPath...),
+					nodePath:          NodePath{path: append([]string(nil), ie.nodePath.path...)},
+					origError:         ta.err,
+					streamOrigin:      t,
+				}
+				ta.errNamed = true
+				break
+			}
+		}
 		return ta, true
 	}
 	if ta.call.postProcessor != nil {
